@@ -410,7 +410,10 @@ class DatabaseService(Service, discriminator="database-service"):
                 else:
                     result = {"status_code": 401, "type": "sql"}
         else:
+            # ignored means ignored: answering a payload that is not ours (e.g. another service's reply arriving on a
+            # port this service also listens on) makes two such listeners answer each other for ever
             self.sys_log.info(f"{self.name}: Ignoring payload as it is not a Database payload")
+            return False
         self.send(payload=result, session_id=session_id)
         return True
 
